@@ -176,10 +176,15 @@ class Evaluator(object):
             return SV(z3.IntVal(v), TInt())
         if isinstance(v, str):
             return SV(self.cx.str_lit(v), TStr())
+        if isinstance(v, bytes):
+            # bytes are modelled as opaque strings of their own literal space
+            return SV(self.cx.str_lit("bytes:" + v.decode("latin-1")), TStr())
         raise Outside("constant %r" % (v,))
 
     def ev_Name(self, node, st):
         nm = node.id
+        if nm in getattr(self.fx, "aliases", {}):
+            raise Outside("bound-method alias %s used as a value" % nm)
         if nm in self.bound:
             return self.bound[nm]
         if nm in st.env:
@@ -438,6 +443,12 @@ class Evaluator(object):
         if isinstance(op, (ast.NotEq, ast.IsNot)):
             return z3.Not(self.eq(a, b))
         if isinstance(op, (ast.Lt, ast.LtE, ast.Gt, ast.GtE)):
+            if isinstance(a.t, TOpt):
+                self.fork_exc(st, z3.Not(a.t.is_none(cx, a.e)), "TypeError", self.fx.where(node))
+                a = SV(a.t.get(cx, a.e), a.t.inner)
+            if isinstance(b.t, TOpt):
+                self.fork_exc(st, z3.Not(b.t.is_none(cx, b.e)), "TypeError", self.fx.where(node))
+                b = SV(b.t.get(cx, b.e), b.t.inner)
             if isinstance(a.t, TInt) and isinstance(b.t, TInt):
                 return {ast.Lt: a.e < b.e, ast.LtE: a.e <= b.e, ast.Gt: a.e > b.e, ast.GtE: a.e >= b.e}[type(op)]
             if isinstance(a.t, TStr) and isinstance(b.t, TStr):
@@ -457,6 +468,9 @@ class Evaluator(object):
             return z3.Select(cont.t.dom(cx, cont.e), self.coerce_key(item, cont.t.k).e)
         if isinstance(cont.t, TMap) and isinstance(cont.t.v, TBool):
             return z3.Select(cont.e, self.coerce_key(item, cont.t.k).e)
+        if isinstance(item.t, TOpt) and isinstance(item.t.inner, TStr) and isinstance(cont.t, TStr):
+            self.fork_exc(st, z3.Not(item.t.is_none(cx, item.e)), "TypeError", self.fx.where(node))
+            item = SV(item.t.get(cx, item.e), item.t.inner)
         if isinstance(cont.t, TStr) and isinstance(item.t, TStr):
             return self.fx.lib.str_contains(cont.e, item.e)
         if isinstance(cont.t, TTuple):
